@@ -274,7 +274,7 @@ def run_shard(spec):
                 notes.append("oracle error %r" % (e,))
                 continue
             for f in pf + cf:
-                if f["key"] == "identity_open_in_span_of_lmi_entry_symmetries":
+                if f["key"] in oracles.C01_KNOWN_KEYS:
                     # the C01 known finding (LMI not symmetric as written) is not specific to re-solving
                     counters["c01_known_mechanism_seen"] = counters.get("c01_known_mechanism_seen", 0) + 1
                     continue
